@@ -537,10 +537,15 @@ func (en *DefaultEngine) exec(ctx context.Context, input []byte) (bool, error) {
 	}
 
 	logg.Debugf("start VM run", "code", code)
+	pending := code
 	code, err = en.vm.Run(ctx, code)
 	if err != nil {
 		logg.ErrorCtxf(ctx, "fail VM run with state", "code", en.st.Code, "state", en.st.String(), "vm", en.vm)
-		// keep the instructions that are left, or the session has no code to continue with
+		// keep the instructions that are left, or the session has no code to continue with;
+		// if the failure consumed everything, offer what was pending again
+		if len(code) == 0 {
+			code = pending
+		}
 		en.st.SetCode(code)
 		return false, err
 	}
